@@ -4,7 +4,7 @@ import vlib
 OVERLAY = {"node/pkg/vaa/zz_verif_vaa_test.go": "vaa/vaa_verif_test.go"}
 
 
-def run_vaa(ctx, part, ops, classify=None):
+def run_vaa(ctx, part, ops, classify=None, also=None):
     ov = ctx.overlay(OVERLAY)
     rc, out = ctx.go_test("node", "./pkg/vaa", "^TestVerifVaa$", ov, env={"VERIF_PART": part})
     src = os.path.join(ctx.work, "vaa.cases")
@@ -17,7 +17,7 @@ def run_vaa(ctx, part, ops, classify=None):
     with open(src) as f, open(dst, "w") as g:
         for ln in f:
             op = ln.split(" ", 1)[0]
-            if op in ops:
+            if op in ops or (also is not None and also(ln)):
                 g.write(ln)
                 k = ln.split(" ", 2)[1].rstrip("0123456789")
                 kinds[k] = kinds.get(k, 0) + 1
